@@ -11,7 +11,7 @@ import (
 
 // Race instrumentation: before each simple statement (and before the header of
 // if/switch/range), emit vrt.Rd / vrt.Wr calls for the struct fields,
-// package-level variables, slice elements and pointer targets the statement
+// package-level variables, local variables that a function literal refers to, slice elements and pointer targets the statement
 // reads or writes.  These are not scheduling points; they feed the
 // vector-clock race oracle of the runtime.
 
@@ -56,7 +56,8 @@ func (in *inst) walk(e ast.Expr, write bool, out *[]acc) {
 		if e.Name == "_" {
 			return
 		}
-		if v, ok := in.info.Uses[e].(*types.Var); ok && !v.IsField() && in.pkg != nil && v.Parent() == in.pkg.Scope() {
+		if v, ok := in.info.Uses[e].(*types.Var); ok && !v.IsField() && in.pkg != nil && (v.Parent() == in.pkg.Scope() || in.captured[v] && v.Pos() < in.hookPos) {
+			// (a local declared by the statement itself - `if err := f(); err != nil` - does not exist yet where the hooks go)
 			in.record(e, write, out)
 		}
 	case *ast.SelectorExpr:
@@ -171,6 +172,7 @@ func (in *inst) raceHooks(pos token.Pos, stmts []ast.Stmt, exprs []ast.Expr) []a
 	if !in.race {
 		return nil
 	}
+	in.hookPos = pos
 	var as []acc
 	for _, s := range stmts {
 		in.stmtAccesses(s, &as)
